@@ -1032,3 +1032,16 @@ mod debug {
         }
     }
 }
+
+#[cfg(abyssiniandb_verif)]
+impl VarFile {
+    pub fn verif_from_buf(piece_mgr: PieceMgr, buf_file: BufFile) -> VarFile {
+        Self { buf_file, piece_mgr }
+    }
+    pub fn verif_buf(&self) -> &BufFile {
+        &self.buf_file
+    }
+    pub fn verif_buf_mut(&mut self) -> &mut BufFile {
+        &mut self.buf_file
+    }
+}
